@@ -76,6 +76,19 @@ def _evaluate(case: Dict[str, Any]) -> Dict[str, Any]:
             out["insel"] = sorted(insel)
             if case.get("order", True):
                 out["orderx"] = _order(lambda: exr(), keymap)
+    if case.get("final_ops"):
+        # operations that derive graphs from the DAG (setup runs, executors) must leave the DAG's own table alone
+        import asyncio
+
+        for op in case["final_ops"]:
+            tn = None if op.get("T") is None else [ids[s] for s in op["T"]]
+            try:
+                r = b.dag.setup(target_nodes=tn) if op["op"] == "setup" else b.dag.executor(target_nodes=tn).setup()
+                if asyncio.iscoroutine(r):
+                    asyncio.run(r)
+            except ValueError:
+                pass
+        out["t_end"] = _table(b.dag.graph_ids, ids)
     return out
 
 
